@@ -481,7 +481,7 @@ fn embedded_strategy() -> impl Strategy<Value = PhraseCase> {
             let n = 1 + u.below(16);
             (0..n).map(|_| bip39::word(u.below(2048) as u16)).collect()
         };
-        match u.below(6) {
+        match u.below(8) {
             0 => words.extend(extra(&mut u)),
             1 => {
                 let mut w = extra(&mut u);
@@ -499,6 +499,39 @@ fn embedded_strategy() -> impl Strategy<Value = PhraseCase> {
                 words.truncate(words.len() - cut);
             }
             4 => words.extend(bip39::encode_words(&e2)),
+            5 | 6 => {
+                // list markers and other tokens that are no words, ADDED to a valid phrase (a pasted numbered list,
+                // a position label, bullet points): more tokens than words - refused
+                const MARKS: [&str; 20] = ["1", "1.", "12", "13", "24", "2048", "#1", "1)", "1:", ".", "...", ":", ")", "-", "*", "(1)", "[1]", "01", "\u{2022}", "0x1"];
+                let mut owned: Vec<String> = words.iter().map(|w| w.to_string()).collect();
+                if u.ratio(1, 3) {
+                    // the whole phrase as a numbered list
+                    let style = u.below(4);
+                    owned = owned
+                        .iter()
+                        .enumerate()
+                        .flat_map(|(i, w)| {
+                            let label = match style {
+                                0 => format!("{}.", i + 1),
+                                1 => format!("{})", i + 1),
+                                2 => format!("{}", i + 1),
+                                _ => format!("#{}:", i + 1),
+                            };
+                            [label, w.clone()]
+                        })
+                        .collect();
+                } else {
+                    for _ in 0..1 + u.below(3) {
+                        let at = match u.below(3) {
+                            0 => 0,
+                            1 => owned.len(),
+                            _ => u.below(owned.len() + 1),
+                        };
+                        owned.insert(at, MARKS[u.below(MARKS.len())].to_string());
+                    }
+                }
+                return PhraseCase { phrase: owned.join(" ") };
+            }
             _ => {
                 // repeat the phrase's own last or first word
                 if u.bool() {
@@ -613,6 +646,33 @@ pub fn run(ctx: &mut Ctx) {
         }
     }
     ctx.run_cases("valid", &extremes, judge_case);
+    // valid phrases made only of list words that are also hexadecimal digit strings (add, beef, dad, decade, face,
+    // fade, fee, feed, ...): text an input-format detector would take for hex
+    let hexwords: Vec<&'static str> = (0..2048u16).map(bip39::word).filter(|w| w.bytes().all(|b| (b'a'..=b'f').contains(&b))).collect();
+    let mut looks_hex = vec![];
+    if hexwords.len() >= 2 {
+        let mut p = Prng::new(ctx.sub_seed("hexwords", 0));
+        let mut tries = 0;
+        while looks_hex.len() < t.pick(40, 400) && tries < 200_000 {
+            tries += 1;
+            let len = bip39::LENGTHS[p.below(5) as usize];
+            let mut w: Vec<&str> = (0..len - 1).map(|_| hexwords[p.below(hexwords.len() as u64) as usize]).collect();
+            for last in &hexwords {
+                w.push(last);
+                let phrase = w.join(" ");
+                if bip39::decode_phrase(&phrase).is_ok() {
+                    looks_hex.push(PhraseCase { phrase });
+                    w.pop();
+                    break;
+                }
+                w.pop();
+            }
+        }
+    }
+    ctx.run_cases("valid", &looks_hex, judge_case);
+    if looks_hex.len() < 20 {
+        ctx.inconclusive(format!("only {} hex-looking valid phrases could be constructed", looks_hex.len()));
+    }
 
     // (b)
     let mut cells = vec![];
